@@ -97,6 +97,8 @@ func fields(fl *ast.FieldList) []any {
 
 func exTree(e ast.Expr) node {
 	switch x := e.(type) {
+	case *ast.ParenExpr:
+		return exTree(x.X) // grouping only: chan (<-chan T)
 	case *ast.Ident:
 		return node{"id", x.Name}
 	case *ast.SelectorExpr:
